@@ -11,7 +11,8 @@ import (
 //zzv:bound R1 = real restorePwmEnabled on a hwmon fan: original mode in {0,1,2,3,5}, original PWM any 0..255, current PWM register any 0..255, control-mode file present or not, the mode write succeeding / failing / silently ignored: whenever PWM writes are accepted the fan ends in its original mode (if that was not manual) or at PWM 255
 //zzv:bound R2 = same with PWM writes failing or ignored as well: whenever the original mode is not verifiably restored the last PWM write attempted is 255
 //zzv:bound R3 = the real (*DefaultFanController).Run start-up followed by its real actor closures (oklog/run.Group.Run sequentialised): context cancellation at any tick <= 2 and a fatal control error (never-stop fan stalled at maximum) both end with the restore routine having run (device in original mode or at 255)
-//zzv:outside delivery of real signals and a second signal; concurrent interleaving of the actors; arrival during the start-up sleeps; the failed-initialisation branch of Run (needs the measurement loop, see C15)
+//zzv:bound R4 = the real Run() on a hwmon fan without stored data whose initial analysis (real RunInitializationSequence: measurement loop over a three-entry configured map, settle loop included) fails because its result cannot be stored: Run returns the error after the restore routine has run
+//zzv:outside delivery of real signals and a second signal; concurrent interleaving of the actors (every actor is tried as the first one to return, but actors do not interleave); arrival during the start-up sleeps
 //zzv:stub oklog/run.Group.Run executes the actors one after the other; select picks any ready case (ticker limited to 2 ticks)
 
 var zzModes = []int{0, 1, 2, 3, 5}
@@ -77,4 +78,28 @@ func ZZ_C03_R3_StopRestores() {
 	zzv.Record("pwmAfter", zzv.FilePeek(e.pwmPath))
 	zzv.Assert(err == nil, "R3.run_returns_cleanly")
 	zzv.Assert(zzRestored(e, orig), "R3.stopping_restores_the_fan")
+}
+
+// R4: the initial analysis of a fan fails (here: its result cannot be stored): Run must hand the
+// fan back before it returns the error.
+func ZZ_C03_R4_FailedInitialisationRestores() {
+	orig := zzModes[zzv.Choice("originalMode", len(zzModes))]
+	origPwm := zzRange("originalPwm", 0, 255)
+	configuration.CurrentConfig.RpmPollingRate = time.Millisecond
+	configuration.CurrentConfig.RpmRollingWindowSize = 10
+	configuration.CurrentConfig.MaxRpmDiffForSettledFan = 1000000
+	configuration.CurrentConfig.FanResponseDelay = 0
+	e := zzNewFan(zzKindHwmon, false, true, true, true, origPwm, orig, 1300)
+	e.hw.Config.PwmMap = &map[int]int{0: 0, 128: 128, 255: 255} // no sweep: the measurement loop runs over three values
+	mem := &zzMemPersistence{rpm: map[string]map[int]float64{}, pwmMaps: map[string]map[int]int{}, failRpmSave: true}
+	c := &DefaultFanController{persistence: mem, fan: e.fan, curve: &zzCurve{id: "zzcurve", v: 100}, updateRate: time.Millisecond,
+		pwmValuesWithDistinctTarget: []int{}, controlLoop: zzLoop(0)}
+	e.c = c
+	ctx, cancel := zzv.NewContext()
+	defer cancel()
+	err := c.Run(ctx)
+	zzv.Record("modeAfter", zzv.FilePeek(e.enablePath))
+	zzv.Record("pwmAfter", zzv.FilePeek(e.pwmPath))
+	zzv.Assert(err != nil, "R4.failed_initialisation_is_reported")
+	zzv.Assert(zzRestored(e, orig), "R4.failed_initialisation_restores_the_fan")
 }
